@@ -1706,7 +1706,12 @@ class Scheduler:
         # List of task whose states have changed.
         updated_task_list = [
             t for t in self.pool.get_tasks() if t.state.is_updated]
-        has_updated = updated_task_list or self.is_updated
+        has_updated = (
+            updated_task_list
+            or self.is_updated
+            # (a removed task is no longer in the pool to say it was updated)
+            or self.pool.tasks_removed
+        )
 
         if updated_task_list and self.is_restart_timeout_wait:
             # Stop restart timeout if action has been triggered.
@@ -1727,6 +1732,7 @@ class Scheduler:
 
             # Reset workflow and task updated flags.
             self.is_updated = False
+            self.pool.tasks_removed = False
             for itask in updated_task_list:
                 itask.state.is_updated = False
 
